@@ -5,7 +5,8 @@
 WT=$1; K=$2; shift 2
 cd /verif
 if [ -n "$(git -C /repo status --short)" ]; then echo "/repo is dirty; refusing"; exit 1; fi
-git -C /repo apply $WT/OUT/patch_$K.diff || { echo "patch does not apply"; exit 9; }
+P=$WT/OUT/patch_$K.diff; [ -f "$P" ] || P=$WT/$K.diff
+git -C /repo apply $P || { echo "patch does not apply"; exit 9; }
 export VX_EVIDENCE_DIR=/verif/work/seed_evidence
 for P in "$@"; do python3 -m vx check $P | grep -E "^VIOLATION|^UNDECIDED|exit=" | cut -c1-260; done
 git -C /repo checkout -q -- .
